@@ -447,7 +447,7 @@ def _gen_relion(rng, cls, version, big):
     if n >= 2 and len(set(half.tolist())) == 1:
         half[int(rng.integers(0, n))] = 3 - half[0]
     halfmode = "both"
-    if cls == "no_halfset" or (cls in ("random", "numeric_names") and rng.random() < 0.25):
+    if cls == "no_halfset" or (cls in ("random", "numeric_names") and rng.random() < 0.25) or (cls == "dup_subtomo" and rng.random() < 0.5):
         halfmode = "absent"
     elif cls == "halfset_single" or n == 1:
         half[:] = int(rng.integers(1, 3))
